@@ -231,6 +231,10 @@ func unmarshalChannel(s interface{}) (Channel, error) {
 		}
 	}
 
+	if address == nil {
+		return nil, errors.Errorf("Channel has no (textual) 'address': %+v", stuff)
+	}
+
 	var channel Channel
 	switch address.Scheme {
 	case "socks":
